@@ -531,7 +531,7 @@ impl Check for C04 {
         }
     }
 
-    fn generate(&self, g: &mut Xo, _tier: Tier, _run: u64) -> Sc {
+    fn generate(&self, g: &mut Xo, _tier: Tier, run: u64) -> Sc {
         let kind = if g.chance(1, 5) { Kind::Str } else { Kind::Usize };
         let cap0 = match g.below(10) {
             0 => None,
@@ -539,6 +539,7 @@ impl Check for C04 {
             2 => Some(usize::MAX),
             // capacities of arbitrary magnitude (rare), so that size-dependent paths are crossed
             3 if g.chance(1, 6) => Some(g.log_uniform(7, 5000)),
+            4 if run % 3 == 0 => Some(((run / 3) % 301) as usize), // dense sweep of capacities 0..=300
             _ => Some(g.usize_below(7)),
         };
         let roomy = cap0.is_some_and(|c| (7..usize::MAX).contains(&c) && c != 64);
